@@ -26,11 +26,36 @@ BUILT = {
          "Whether two groups really differ in shape is C03's oracle; the ground truth for 'instantiations of one definition' comes from the source program and is used for coincidence-free programs only. Registries with the known finding's shape (family next to an existing Name<digits>) are excluded and counted.",
          "proptest-driven tape generator of family-rich registries + before/after model of the de-duplication contract + metamorphic idempotence check",
          "DESIGN.md section 5 C04"),
+ "C16": ("exploration",
+         "Model-based (state machine) testing: histories of 0..40 public builder calls (global/specific/recursive derives and attributes; substitutes insert / insert_if_not_exists / extend with valid and invalid arguments of every documented kind) are run against TypeGeneratorSettings and against a set/map model; after every step the rule map (iter/contains) equals the model and a rejected call returned the documented kind and changed nothing; after the history the derives/attributes of every item of a fixed probe registry (chain, diamond, cycle, generic) and the active substitution rules equal the model.",
+         "The probe registry is fixed; reachability for recursive registrations is computed by the harness on it. NoMatchingFromType is never asserted (the code treats an unmatched ident as a concrete type).",
+         "proptest-driven operation sequences interpreted against a reference state machine (model-based testing)",
+         "DESIGN.md section 5 C16"),
  "C18": ("exploration",
          "For every struct and every variant of every emitted non-generic item of generated registries (and of the full Polkadot registry under four settings) the public composite API (create_composite_ir_kind + CompositeIR::new + upcast_composite) is called and the resulting struct is parsed and compared with the registry field list by the C01 shape oracle, with the tokens/compact markers of the same variant in the emitted enum, and with the derive/attribute model (global only; CompactAs iff configured and exactly one unsigned field <= 128 bits, Cow transparent, boxed integer accepted either way).",
          "Byte-level equality of struct encoding and variant payload follows from shape equality (same oracle as C01).",
          "proptest-driven tape generator + differential oracle (registry field list vs interpreted standalone struct vs the enum's own variant) + derive-set model",
          "DESIGN.md section 5 C18"),
+ "C06": ("exploration",
+         "Thousands of (registry, rich settings) cases - generated programs and Polkadot sub-registries with >= 6 derives, >= 4 attributes, >= 5 per-path/recursive registrations and >= 5 substitutes - are observed (module tokens, de-duplicated registry, validation result as sets) repeatedly in one thread (every HashMap draws fresh RandomState keys), on fresh threads, with the registration calls permuted, and for a sample in fresh processes; all observations must be identical and every derive/attribute list strictly increasing.",
+         "'All hash-map seeds' is sampled (tens of RandomStates, a few processes per case). Substitute sources are pairwise distinct so that a permuted history denotes the same rule set.",
+         "proptest-driven generator + metamorphic relations (repetition, fresh threads, fresh processes, permuted registration order) + sortedness predicate",
+         "DESIGN.md section 5 C06"),
+ "C09": ("exploration",
+         "For each generated registry that uses the heap prelude types, docs and compact fields, ALL 32 combinations of the five switches (alloc path, docs, codec attributes, root name, compact+bits paths) are generated; each output is checked directly against the registry (alloc-rooted paths and no std, docs exactly the registry's or none, codec index/compact markers exactly the registry's or none) and a normaliser that replaces exactly the governed tokens must map all 32 outputs to one normal form.",
+         "User supplied paths in these settings never start with ::std / an alloc root and carry no codec attribute. Exhaustive over the switch combinations per case, sampled over registries.",
+         "proptest-driven generator x exhaustive 2^5 switch enumeration per case + direct predicates + metamorphic normal-form equality",
+         "DESIGN.md section 5 C09"),
+ "C10": ("fault_enumeration",
+         "Fault-free part: tens of thousands of generated registries from all strata and Polkadot sub-registries with supported settings must never panic and fail only with DuplicateTypePath (generate_types_mod, ensure_unique_type_paths, resolve_type_path for every id). Fault part: for thousands of base registries EVERY single fault of each documented kind at EVERY site (each entry id, each multi-field composite/variant, each struct field / variant field / nested element position that generation resolves, each with a missing compact path, a missing bits path or a dangling id) is injected and the exact documented error kind with its payload is required, under catch_unwind.",
+         "One fault at a time; base registries have unique paths and no recursive derives as the property demands; sites are enumerated exhaustively per base registry, base registries are sampled.",
+         "exhaustive single-fault injection per generated base registry + error-kind model under catch_unwind",
+         "DESIGN.md section 5 C10"),
+ "C11": ("exploration",
+         "Hundreds of thousands of generated (registry, registrations, substitutes) cases mixing known paths with unknown ones (mutated last segment, wrong module, extra segment, prefix only, generics on the path), several unknown at once and one path registered both specifically and recursively, are validated and the result is compared with a set model (Ok iff nothing unknown; each unknown path exactly once with the union of its derives/attributes; unknown substitutes with their targets); similar-path queries are compared with a list model in registry order.",
+         "Paths are compared by their identifiers (generic arguments ignored), as the documentation of the settings says.",
+         "proptest-driven generator + reference set model",
+         "DESIGN.md section 5 C11"),
  "C15": ("exploration",
          "Bounded-exhaustive enumeration of all strings over the 9-character bracket alphabet up to length 7 (quick) / 9 (thorough) plus tape-driven random hostile strings and properly nested strings around the 32-character look-ahead, each checked against a whitespace-only relation and an indentation depth model; every description produced by the C13 check is also fed through it. Exploration is the right level: the function is total over strings, cheap, and its only state is a depth counter, so small-scope exhaustiveness plus boundary-directed generation covers its decision structure.",
          "Trusts the harness' depth model (validated against the unchanged formatter on the exhaustive stratum) and Rust's char::is_whitespace. The small/large scope decision is not constrained.",
